@@ -1,4 +1,5 @@
 """C32 - view definitions are accepted exactly when Tezos accepts them.  Spec: ViewCheck.tla."""
+import json
 import hashlib
 
 from ..tlaparse import to_json
@@ -164,10 +165,43 @@ def input_class(name, code):
     return bad, kinds
 
 
+UNIT_T = {'prim': 'unit'}
+SCRIPT = lambda view, code=None: [{'prim': 'parameter', 'args': [UNIT_T]}, {'prim': 'storage', 'args': [UNIT_T]},
+                                  {'prim': 'code', 'args': [code or [{'prim': 'CDR'}, {'prim': 'NIL', 'args': [{'prim': 'operation'}]}, {'prim': 'PAIR'}]]}, view]
+
+
+def impl_other(expr, how):
+    """the same view met on another way in: as a section of a whole script, or inside the script of a CREATE_CONTRACT of another contract"""
+    from pytezos.michelson.micheline import MichelsonRuntimeError
+    from pytezos.michelson.program import MichelsonProgram
+    script = SCRIPT(expr)
+    if how == 'nested':
+        outer = [{'prim': 'DROP'}, {'prim': 'UNIT'}, {'prim': 'PUSH', 'args': [{'prim': 'mutez'}, {'int': '0'}]}, {'prim': 'NONE', 'args': [{'prim': 'key_hash'}]},
+                 {'prim': 'CREATE_CONTRACT', 'args': [script]}, {'prim': 'DROP'}, {'prim': 'DROP'}, {'prim': 'UNIT'}, {'prim': 'NIL', 'args': [{'prim': 'operation'}]}, {'prim': 'PAIR'}]
+        script = SCRIPT({'prim': 'view', 'args': [{'string': 'plain'}, UNIT_T, UNIT_T, [{'prim': 'CDR'}]]}, outer)
+    try:
+        MichelsonProgram.match(script)
+    except (MichelsonRuntimeError, AssertionError) as e:
+        return 'reject', str(e.args[-1])[:100]
+    return 'accept', ''
+
+
 def compare(ctx, name, code, verdict, expr):
     got, why = impl(expr)
     case = {'name': to_json(name), 'code': to_json(code), 'model': verdict, 'expr': expr}
     if got == verdict:
+        # a view is a view wherever it stands: the other ways in give the same verdict (all rejected views, every fifth accepted one)
+        import zlib
+        if verdict == 'reject' or zlib.crc32(json.dumps(expr, sort_keys=True).encode()) % 5 == 0:
+            for how in ('script', 'nested'):
+                g2, w2 = impl_other(expr, how)
+                ctx.count((how, json.dumps(expr, sort_keys=True)), nontrivial=True)
+                if g2 != verdict:
+                    bad, kinds = input_class(name, code)
+                    ctx.mismatch('C32:%s:%s:%s' % (how, 'accepted' if g2 == 'accept' else 'rejected', '+'.join(bad) or 'plain-view'),
+                                 'view %s %s: MichelsonProgram.match gave %s %s, ViewSection.match and the model say %s' % (
+                                     short(expr), 'as a section of a script' if how == 'script' else 'inside the script of a CREATE_CONTRACT', g2, w2, verdict), dict(case, how=how))
+                    return False
         return True
     bad, kinds = input_class(name, code)
     if got == 'accept':
